@@ -256,7 +256,7 @@ def crypt_contract(mode, op, variant='rw'):
         ensures['next'] = "self._next == ['%s']" % op
         mods.append('self._next')
     return Contract(qual(mode, op), params=params, requires=[SIZE_T % ('len(%s)' % data)], raises=raises, ensures=ensures,
-                    modifies=mods, unchanged_on_raise=['TypeError'], opaque=['spec.modes.ctr_limit'],
+                    modifies=mods, unchanged_on_raise=['TypeError'], opaque=['spec.modes.ctr_limit'], result='bytes|none',
                     on_raise={'OverflowError': ["self._next == ['%s']" % op]} if mode == 'ctr' else {})
 
 
@@ -312,7 +312,7 @@ def init_contract(mode, for_call=False):
                     sets={'block_cipher._raw_pointer': 'None'}, options={'assume_valid': False})
 
 
-def factory_contract(mode, name):
+def factory_contract(mode, name, for_call=False):
     """_create_<mode>_cipher(factory, **kwargs) for factory = Crypto.Cipher.<name>: parameter handling in the documented order,
     the iv attribute equals the IV passed (iv= or IV=) or a generated one of block size, and is what the native state got"""
     bs, alg = cf.BLOCK[name], cf.ALG[name]
@@ -324,7 +324,7 @@ def factory_contract(mode, name):
     opt += [('bogus', ['int'])]
     shapes = cf.dict_shapes([], opt)
     has_key = "'key' in kwargs"
-    keyok = "(%s and spec.modes.key_len_ok(%d, len(kwargs['key'])))" % (has_key, alg)
+    keyok = "(%s and %s)" % (has_key, cf.keyok_expr(name, "kwargs['key']"))
     if mode == 'ecb':
         both, ivbad = 'False', 'False'
     else:
@@ -339,18 +339,126 @@ def factory_contract(mode, name):
     raises = {'TypeError': ('only_if', tfault), 'ValueError': ('only_if', vfault)}
     P = 'result._state._raw_pointer'
     ensures = {'accepted': 'old(not %s and not %s)' % (tfault, vfault),
-               'key': "%s.g_key == old(bytes(kwargs['key'])) and %s.g_alg == %d" % (P, P, alg),
+               'key': "%s.g_key == old(%s) and %s.g_alg == %d" % (P, cf.key_value_expr(name, "kwargs['key']"), P, alg),
                'block_size': 'result.block_size == %d' % bs,
                'valid': 'valid(result)'}
     if mode != 'ecb':
         ensures.update({'iv': "(old('iv' in kwargs) ==> result.iv == old(bytes(kwargs['iv']))) and (old('IV' in kwargs) ==> result.iv == old(bytes(kwargs['IV'])))",
                         'iv_generated': "not old('iv' in kwargs or 'IV' in kwargs) ==> result.iv == sys_tape(0, %d)" % bs,     # base.py entropy tape
+                        'fresh': "len(result._next) == 2 and %s.g_fed == b'' and %s.g_dir == 0" % (P, P),
                         'iv_len': 'len(result.iv) == %d' % bs,
                         'native_iv': '%s.g_iv == result.iv' % P})
     if mode == 'cfb':
         ensures['segment'] = "%s.g_seg * 8 == old(kwargs.get('segment_size', 8))" % P
     return Contract(qual(mode, '<factory>'), params={'factory': 'module:Crypto.Cipher.' + name, 'kwargs': shapes}, raises=raises,
-                    ensures=ensures, modifies=['kwargs'], opaque=['spec.modes.key_len_ok'])
+                    # (callers: `kwargs` is the callee's own fresh **kwargs record, nothing of the caller is modified)
+                    ensures=ensures, modifies=None if for_call else ['kwargs'], opaque=cf.KEY_OPAQUE, result='obj:' + qual(mode))
+
+
+def new_cfb_contract(name):
+    """<cipher>.new(key, MODE_CFB, IV=..., segment_size=...): the composition of Cipher._create_cipher (real code, inlined) and
+    _create_cfb_cipher (its contract): a fresh CFB object keyed with `key`, started on IV, with segment_size // 8 byte segments.
+    This is the form OpenPgpMode uses."""
+    bs, alg = cf.BLOCK[name], cf.ALG[name]
+    P = 'result._state._raw_pointer'
+    keyok = cf.keyok_expr(name, 'key')
+    return Contract(C + name + '.new', params={'key': 'bytes', 'mode': ('const', 3), 'args': 'tuple()', 'kwargs': 'dict(IV:bytes,segment_size:int)'},
+                    raises={'ValueError': ('iff', "not %s or len(kwargs['IV']) != %d or not spec.modes.cfb_segment_ok(kwargs['segment_size'], %d)" % (keyok, bs, bs))},
+                    ensures={'key': '%s.g_key == %s and %s.g_alg == %d' % (P, cf.key_value_expr(name, 'key'), P, alg),
+                             'iv': "%s.g_iv == old(kwargs['IV']) and result.iv == old(kwargs['IV'])" % P,
+                             'segment': "%s.g_seg * 8 == old(kwargs['segment_size'])" % P,
+                             'fresh': "len(result._next) == 2 and %s.g_fed == b'' and %s.g_dir == 0" % (P, P),
+                             'block_size': 'result.block_size == %d' % bs,
+                             'valid': 'valid(result)'},
+                    result='obj:' + qual('cfb'), modifies=None, inline=[C + '_create_cipher'], opaque=cf.KEY_OPAQUE)
+
+
+# ------------------------------------------------------------------------------------------------ OpenPGP (RFC 4880 13.9)
+
+OP = C + '_mode_openpgp.OpenPgpMode'
+
+
+def openpgp_class(reg, empty=False):
+    K = 'self._cipher._state._raw_pointer'
+    reg.add(ClassContract(OP, fields={} if empty else {'block_size': 'int[8..16]', '_done_first_block': 'bool', '_encrypted_IV': 'bytes',
+                                                        'iv': 'bytes', 'IV': 'bytes', '_cipher': 'obj:' + qual('cfb')},
+                          valid=['len(self._encrypted_IV) == self.block_size + 2', 'len(self.iv) == self.block_size', 'self.IV == self.iv',
+                                 'self._cipher.block_size == self.block_size',
+                                 # the data cipher is CFB with whole-block segments, started on the last block_size bytes of the encrypted IV
+                                 '%s.g_seg == self.block_size' % K, '%s.g_iv == self._encrypted_IV[2:]' % K]))
+
+
+def openpgp_contracts(name):
+    bs, alg = cf.BLOCK[name], cf.ALG[name]
+    K = 'self._cipher._state._raw_pointer'
+    zero = 'bytes(%d)' % bs
+    kv = cf.key_value_expr(name, 'key')
+    enc0 = 'spec.modes.cfb_enc(%d, %s, %s, %d, %%s)' % (alg, kv, zero, bs)
+    dec0 = 'spec.modes.cfb_dec(%d, %s, %s, %d, %%s)' % (alg, kv, zero, bs)
+    init = Contract(OP + '.__init__', params={'factory': 'module:Crypto.Cipher.' + name, 'key': 'bytes', 'iv': 'buffer', 'cipher_params': 'dict()'},
+                    raises={'ValueError': ('iff', 'not %s or (len(iv) != %d and len(iv) != %d)' % (cf.keyok_expr(name, 'key'), bs, bs + 2))},
+                    ensures={
+                        # encryption side: the caller gives the IV; the prefix is E-CFB_zero-IV(IV || IV[-2:])
+                        'prefix_enc': 'len(iv) == %d ==> (self.iv == bytes(iv) and self._encrypted_IV == %s)' % (bs, enc0 % 'bytes(iv) + bytes(iv)[%d:]' % (bs - 2)),
+                        # decryption side: the caller gives the received prefix; the IV is its decryption without the two check bytes
+                        'prefix_dec': 'len(iv) == %d ==> (self._encrypted_IV == bytes(iv) and self.iv == %s[:%d])' % (bs + 2, dec0 % 'bytes(iv)', bs),
+                        'data_cipher': '%s.g_key == %s and %s.g_alg == %d and %s.g_fed == b"" and %s.g_dir == 0' % (K, kv, K, alg, K, K),
+                        'first': 'not self._done_first_block', 'block_size': 'self.block_size == %d' % bs,
+                        'valid': 'valid(self)'},
+                    modifies=['self.block_size', 'self._done_first_block', 'self._encrypted_IV', 'self.iv', 'self.IV', 'self._cipher'],
+                    options={'assume_valid': False}, opaque=cf.KEY_OPAQUE)
+    fed = 'old(%s.g_fed)' % K
+    body = 'spec.modes.cfb_%%s(%s.g_alg, %s.g_key, %s.g_iv, %s.g_seg, %s + old(bytes(%%s)))[len(%s):]' % (K, K, K, K, fed, fed)
+    enc = Contract(OP + '.encrypt', params={'plaintext': 'buffer'}, requires=[SIZE_T % 'len(plaintext)', "'encrypt' in self._cipher._next"],
+                   raises={},
+                   ensures={'value': 'result == (b"" if old(self._done_first_block) else old(self._encrypted_IV)) + %s' % (body % ('enc', 'plaintext')),
+                            'done': 'self._done_first_block', 'valid': 'valid(self)'},
+                   modifies=['self._done_first_block', 'self._cipher._next', K + '.g_fed', K + '.g_dir'])
+    dec = Contract(OP + '.decrypt', params={'ciphertext': 'buffer'}, requires=[SIZE_T % 'len(ciphertext)', "'decrypt' in self._cipher._next"],
+                   raises={}, ensures={'value': 'result == %s' % (body % ('dec', 'ciphertext')), 'valid': 'valid(self)'},
+                   modifies=['self._cipher._next', K + '.g_fed', K + '.g_dir'])
+    return [init, enc, dec]
+
+
+def openpgp_factory_contract(name):
+    bs = cf.BLOCK[name]
+    shapes = cf.dict_shapes([], [('key', ['bytes']), ('iv', list(cf.KEYT)), ('IV', ['bytes'])])
+    tfault = "('key' not in kwargs or ('iv' in kwargs and 'IV' in kwargs))"
+    ivlen = "(len(kwargs['IV']) if 'IV' in kwargs else len(kwargs['iv']))"
+    vfault = "('key' in kwargs and (not %s or (('iv' in kwargs or 'IV' in kwargs) and %s != %d and %s != %d)))" % (cf.keyok_expr(name, "kwargs['key']"), ivlen, bs, ivlen, bs + 2)
+    return Contract(C + '_mode_openpgp._create_openpgp_cipher', params={'factory': 'module:Crypto.Cipher.' + name, 'kwargs': shapes},
+                    raises={'TypeError': ('only_if', tfault), 'ValueError': ('only_if', vfault)},
+                    ensures={'accepted': 'old(not %s and not %s)' % (tfault, vfault),
+                             'iv': "(old('iv' in kwargs and len(kwargs['iv']) == %d) ==> result.iv == old(bytes(kwargs['iv']))) and "
+                                   "(old('IV' in kwargs and len(kwargs['IV']) == %d) ==> result.iv == old(kwargs['IV'])) and "
+                                   "(not old('iv' in kwargs or 'IV' in kwargs) ==> result.iv == sys_tape(0, %d))" % (bs, bs, bs),
+                             'valid': 'valid(result)'},
+                    modifies=['kwargs'], opaque=cf.KEY_OPAQUE)
+
+
+def openpgp_registry(name='AES', variant='rw'):
+    """variant: 'new' = <cipher>.new in CFB mode; 'init' = OpenPgpMode.__init__; 'rw' = encrypt / decrypt; 'factory' = _create_openpgp_cipher"""
+    reg = registry('cfb', 'factory' if variant == 'new' else 'rw', name)
+    if variant == 'new':
+        reg.add(factory_contract('cfb', name, for_call=True))
+        from vf.pyvc.interp import FrozenDict, ModuleV
+        from vf.pyvc import loader
+        q = 'Crypto.Cipher.' + name
+        reg.overrides['sys.modules'] = FrozenDict({q: ModuleV(q, loader.load_module(q))})
+        reg.overrides[q + '.__name__'] = q
+        reg.add(new_cfb_contract(name))
+        return reg
+    cs = openpgp_contracts(name)
+    openpgp_class(reg, empty=(variant == 'init'))
+    if variant in ('init', 'factory'):
+        reg.add(new_cfb_contract(name))
+        reg.add(cs[0])
+        if variant == 'factory':
+            reg.add(openpgp_factory_contract(name))
+    else:
+        reg.add(cs[1])
+        reg.add(cs[2])
+    return reg
 
 
 def install_mode_lib(reg, mode):
@@ -390,10 +498,24 @@ def units(prop, tier):
     out = []
     for mode in ('ecb', 'cbc', 'cfb', 'ofb'):
         if prop in ('C02', 'C09', 'C10', 'C17', 'C19'):
-            for op in ('encrypt', 'decrypt'):
-                if prop == 'C10' and mode == 'ecb':
-                    continue
-                out.append(pyvc_unit(prop, 'mode.%s.%s' % (mode, op), lambda mode=mode: registry(mode), [qual(mode, op)]))
+            if not (prop == 'C10' and mode == 'ecb'):
+                for op in ('encrypt', 'decrypt'):
+                    out.append(pyvc_unit(prop, 'mode.%s.%s' % (mode, op), lambda mode=mode: registry(mode), [qual(mode, op)]))
+        if prop in ('C09', 'C10', 'C17'):
+            # a read-only output buffer is refused with TypeError before anything reaches C
+            out.append(pyvc_unit(prop, 'mode.%s.readonly_output' % mode, lambda mode=mode: registry(mode, 'ro'), [qual(mode, 'encrypt'), qual(mode, 'decrypt')]))
         if prop in ('C02', 'C17'):
             out.append(pyvc_unit(prop, 'mode.%s.init' % mode, lambda mode=mode: registry(mode, 'init'), [qual(mode, '__init__')]))
+            names = ('AES', 'DES3') if tier == 'quick' else tuple(cf.ALG)
+            for name in names:
+                out.append(pyvc_unit(prop, 'mode.%s.factory.%s' % (mode, name), lambda mode=mode, name=name: registry(mode, 'factory', name),
+                                     [qual(mode, '<factory>')], weight=2))
+    if prop in ('C02', 'C09'):
+        out.append(pyvc_unit(prop, 'factory.AES.new_cfb', lambda: openpgp_registry('AES', 'new'), [C + 'AES.new']))
+        out.append(pyvc_unit(prop, 'mode.openpgp.init', lambda: openpgp_registry('AES', 'init'), [OP + '.__init__'], weight=3))
+        out.append(pyvc_unit(prop, 'mode.openpgp.encrypt_decrypt', lambda: openpgp_registry('AES', 'rw'), [OP + '.encrypt', OP + '.decrypt']))
+        out.append(pyvc_unit(prop, 'mode.openpgp.factory', lambda: openpgp_registry('AES', 'factory'), [C + '_mode_openpgp._create_openpgp_cipher'], weight=3))
+        if tier != 'quick':
+            out.append(pyvc_unit(prop, 'factory.DES3.new_cfb', lambda: openpgp_registry('DES3', 'new'), [C + 'DES3.new']))
+            out.append(pyvc_unit(prop, 'mode.openpgp.init.DES3', lambda: openpgp_registry('DES3', 'init'), [OP + '.__init__'], weight=3))
     return out
